@@ -136,10 +136,12 @@ HeavyChecks(s1, s2, e) ==
      <<"C01", "api.ls", ApiOK(e) => (Has(e.api, "ls") => e.api.ls = LsDump(t)), FALSE>>,
      <<"C01", "api.entry", ApiOK(e) => (Has(e.api, "ent") => e.api.ent = EntDump(t)), FALSE>>,
      <<"C01", "abs", Has(e, "img") => (AbsOKC(e.img, C) /\ AbsC(e.img, C) = t), TRUE>>,
+     \* (not fatal: a copy of the bytes that reopens wrongly says nothing about the live object, whose history goes on being
+     \* judged - what a later reopen OPERATION continues on shows in the rules above)
      <<"C02", "reopen.strict",
-        Has(e, "reopen") => (ReopenOK(e, "strict") /\ e.reopen.strict.ok.walk = WalkDump(t)), TRUE>>,
+        Has(e, "reopen") => (ReopenOK(e, "strict") /\ e.reopen.strict.ok.walk = WalkDump(t)), FALSE>>,
      <<"C02", "reopen.permissive",
-        Has(e, "reopen") => (ReopenOK(e, "permissive") /\ e.reopen.permissive.ok.walk = WalkDump(t)), TRUE>>,
+        Has(e, "reopen") => (ReopenOK(e, "permissive") /\ e.reopen.permissive.ok.walk = WalkDump(t)), FALSE>>,
      <<"C16", "strict=>permissive",
         (Has(e, "reopen") /\ ReopenOK(e, "strict")) =>
            (ReopenOK(e, "permissive") /\ e.reopen.permissive.ok = e.reopen.strict.ok), FALSE>>,
